@@ -47,7 +47,7 @@ class Boom(Exception):
 
 
 def parse_hooks(s):
-    out = {"s": [], "e": [], "c": [], "p": []}
+    out = {"s": [], "e": [], "c": [], "p": [], "n": []}
     if s != "-":
         for part in s.split("|"):
             pt, ops = part.split(":")
@@ -219,11 +219,12 @@ class ImplWorld:
             return "err:!" + type(e).__name__
         return "noop"
 
-    def mkworker(self, ctx, mode, swallow, hooks_start, holder, coro=True, hint=None):
+    def mkworker(self, ctx, mode, swallow, hooks_start, holder, coro=True, hint=None, hooks_next=()):
         """`hint` = (request number, stars) for a map request with *empty* elements: the worker is then called without
         any argument and learns the element's index from the iterator (which ran just before the call).
         `mode`: `r` returns at once, `x` raises at once, `g` gated = awaits one harness future, `g1` / `g2` / ... gated with
-        that many *further* suspension points (each on a fresh harness future; event `N` between two of them)"""
+        that many *further* suspension points (each on a fresh harness future; event `N` between two of them, followed by
+        the pool calls `hooks_next` the worker makes there: hook point `n`)"""
         W = self
         awaits = 0
         if mode[:1] == "g":
@@ -284,6 +285,9 @@ class ImplWorld:
                         # suspension point (a fresh future; `on i gate t` completes whichever future the task awaits now)
                         left -= 1
                         ctx.ev.append(f"N{tid}")
+                        # user code between two awaits: the worker is running (not suspended) while it calls the pool
+                        ctx.next_hook_calls = getattr(ctx, "next_hook_calls", 0) + len(hooks_next)
+                        W.run_hooks(ctx, hooks_next, holder)
                         f = W.loop.create_future()
                         ctx.futs[tid] = f
                         continue
@@ -401,7 +405,7 @@ class ImplWorld:
                 wm, sw, ecb, ccb, bad, coro, hooks = toks[4:11]
                 hk = parse_hooks(hooks)
                 holder = {"g": None}
-                f = self.mkworker(ctx, wm, sw, hk["s"], holder, coro == "1")
+                f = self.mkworker(ctx, wm, sw, hk["s"], holder, coro == "1", hooks_next=hk["n"])
                 ecb_f = self.mkcb(ctx, "end", ecb, hk["e"], holder)
                 ccb_f = self.mkcb(ctx, "cancel", ccb, hk["c"], holder)
                 a = (1, 2, 3) if bad == "1" else (7,)
@@ -455,7 +459,7 @@ class ImplWorld:
                 g = dec_name(g)
                 hk = parse_hooks(hooks)
                 holder = {"g": None}
-                f = self.mkworker(ctx, wm, sw, hk["s"], holder, coro == "1")
+                f = self.mkworker(ctx, wm, sw, hk["s"], holder, coro == "1", hooks_next=hk["n"])
                 args = (1, 2, 3) if bad == "1" else (7,)
                 ecb_f = self.mkcb(ctx, "end", ecb, hk["e"], holder)
                 ccb_f = self.mkcb(ctx, "cancel", ccb, hk["c"], holder)
@@ -484,7 +488,7 @@ class ImplWorld:
                 holder = {"g": None}
                 its = "" if items == "-" else items
                 f = self.mkworker(ctx, wm, sw, hk["s"], holder, coro == "1",
-                                  hint=(m, stars) if "3" in its and stars else None)
+                                  hint=(m, stars) if "3" in its and stars else None, hooks_next=hk["n"])
                 W = self
 
                 def gen():
